@@ -306,118 +306,147 @@ Section Model.
   Definition map_c (f : content -> res content) (inputs : list minput) : res (list minput) :=
     mapM (fun i => match i with MC c => rmap MC (f c) | MS _ _ => Ok i end) inputs.
 
+  (* ---- the branches of apply's switch; [rec] is the recursive call apply(nextinputs, depth(+1), user) ---- *)
+  Section Branches.
+    Variable rec : list minput -> res content.
+
+    (* option types: combine the masks, project the present elements, recurse, re-insert None *)
+    Definition opt_branch (inputs : list minput) : res content :=
+      let cs := contents_of inputs in
+      do masks <- mapM bytemask_of (filter is_option_node cs);
+      match masks with
+      | [] => Err EValue
+      | m0 :: ms =>
+          let mask := fold_left or_masks ms m0 in
+          do next <- map_c (fun c =>
+                              if is_option_node c then
+                                do oi <- option_index c; ccarry (snd oi) (kept (fst oi) mask)
+                              else ccarry c (kept (iota (zlen mask)) mask)) inputs;
+          do out <- rec next;
+          Ok (IndexedOption I64 (count_index 0 mask) out)
+      end.
+
+    (* every list input is a RegularArray: NumPy-like broadcasting of one regular dimension *)
+    Definition reg_branch (inputs : list minput) : res content :=
+      let lists := filter is_list_node (contents_of inputs) in
+      let sizes := flat_map (fun c => match c with Regular _ s _ => [s] | _ => [] end) lists in
+      let maxsize := fold_right Z.max 0 sizes in
+      do next <- map_c (fun c =>
+                          match c with
+                          | Regular c' size _ =>
+                              if (1 <? maxsize) && (size =? 1) then
+                                do t <- pyslice c' (clen c * size);
+                                ccarry t (concat (map (fun i => repeat i (Z.to_nat maxsize)) (iota (clen c))))
+                              else if size =? maxsize then pyslice c' (clen c * size)
+                              else Err EValue
+                          | _ => Ok c
+                          end) inputs;
+      let maxlen := fold_right Z.max 0 (map clen (contents_of next)) in
+      do out <- rec next;
+      Ok (Regular out maxsize maxlen).
+
+    (* lists with different offsets: everything is brought to the compact offsets of the first one *)
+    Definition gen_branch (inputs : list minput) : res content :=
+      match filter (fun c => is_list_node c && negb (is_regular_node c)) (contents_of inputs) with
+      | [] => Err EValue
+      | first :: _ =>
+          do offsets <- compact_offsets first;
+          do next <- map_c (fun c =>
+                              if is_list_node c then bto offsets c
+                              else bto offsets (Regular c 1 (clen c))) inputs;
+          do out <- rec next;
+          Ok (ListOffset I64 offsets out)
+      end.
+
+    (* all lists have the same (zero-based) offsets: the contents are used as they are *)
+    Definition same_branch (inputs : list minput) : res content :=
+      let cs := contents_of inputs in
+      do next <- map_c (fun c =>
+                          match c with
+                          | ListOffset _ o c' => pyslice c' (last o 0)
+                          | ListA _ s e c' =>
+                              if (zlen s =? 0) || (zlen e =? 0) then pyslice c' 0
+                              else pyslice c' (fold_right Z.max (hd 0 e) e)
+                          | _ => Ok c
+                          end) inputs;
+      do out <- rec next;
+      (* the node class of the LAST ListOffsetArray, else of the last ListArray *)
+      match rev (filter (fun c => match c with ListOffset _ _ _ => true | _ => false end) cs) with
+      | ListOffset w o _ :: _ => Ok (ListOffset w o out)
+      | _ =>
+          match rev (filter (fun c => match c with ListA _ _ _ _ => true | _ => false end) cs) with
+          | ListA w s e _ :: _ => Ok (ListA w s e out)
+          | _ => Err EValue
+          end
+      end.
+
+    Definition list_branch (inputs : list minput) : res content :=
+      let cs := contents_of inputs in
+      if forallb is_regular_node (filter is_list_node cs) then reg_branch inputs
+      else if negb (all_same_offsets cs) then gen_branch inputs
+      else same_branch inputs.
+
+    (* records with the same keys, field by field (only ak.broadcast_arrays allows records) *)
+    Definition rec_branch (inputs : list minput) : res content :=
+      let cs := contents_of inputs in
+      if negb m_allow_rec then Err EValue else
+      let recs := filter is_record_node cs in
+      let keysets := flat_map (fun c => match c with Record fs ks _ => [keys_of ks (length fs)] | _ => [] end) recs in
+      match keysets with
+      | [] => Err EValue
+      | keys :: others =>
+          if negb (forallb (same_keyset keys) others) then Err EValue else
+          if negb (all_eq (map clen recs)) then Err EValue else
+          match keys with
+          | [] => Err EOob            (* range(None): TypeError in the Python code *)
+          | _ =>
+              do outs <- mapM (fun key =>
+                                 do sub <- map_c (fun c =>
+                                                    match c with
+                                                    | Record fs ks n =>
+                                                        do i <- index_of key (keys_of ks (length fs)) 0;
+                                                        do f <- get fs i; grange f 0 n
+                                                    | _ => Ok c
+                                                    end) inputs;
+                                 rec sub) keys;
+              Ok (Record outs
+                         (if forallb (fun c => match c with Record _ None _ => true | _ => false end) recs
+                          then None else Some keys)
+                         (match recs with r :: _ => clen r | [] => 0 end))
+          end
+      end.
+
+    (* one call of apply *)
+    Definition dispatch (inputs : list minput) : res content :=
+      let cs := contents_of inputs in
+      (* implicit right-broadcasting: all-regular inputs of different depth *)
+      let md := fold_right Z.max (-1) (map pl_depth cs) in
+      if existsb is_list_node cs && (0 <? md) && forallb pl_isreg cs && existsb (fun c => pl_depth c <? md) cs then
+        rec (map (fun i => match i with MC c => MC (wrap1 (Z.to_nat (md - pl_depth c)) c) | _ => i end) inputs)
+      else if negb (checklength cs) then Err EValue else
+      do custom <- getfunction inputs;
+      match custom with
+      | Some out => Ok out
+      | None =>
+          if existsb is_empty_node cs then
+            rec (map (fun i => match i with MC Empty => MC (Numpy DBool [0] []) | _ => i end) inputs)
+          else if existsb is_numpy_nd cs then
+            rec (map (fun i => match i with MC c => MC (if is_numpy_nd c then np_to_regular c else c) | _ => i end) inputs)
+          else if existsb is_indexed_node cs then
+            do next <- map_c (fun c => match c with Indexed _ ix c' => ccarry c' ix | _ => Ok c end) inputs;
+            rec next
+          else if existsb is_union_node cs then Err EValue          (* named gap *)
+          else if existsb is_option_node cs then opt_branch inputs
+          else if existsb is_list_node cs then list_branch inputs
+          else if existsb is_record_node cs then rec_branch inputs
+          else Err EValue
+      end.
+  End Branches.
+
   Fixpoint apply (fuel : nat) (inputs : list minput) : res content :=
     match fuel with
     | O => Err EFuel
-    | S fuel' =>
-        let cs := contents_of inputs in
-        (* implicit right-broadcasting: all-regular inputs of different depth *)
-        let md := fold_right Z.max (-1) (map pl_depth cs) in
-        if existsb is_list_node cs && (0 <? md) && forallb pl_isreg cs && existsb (fun c => pl_depth c <? md) cs then
-          apply fuel' (map (fun i => match i with MC c => MC (wrap1 (Z.to_nat (md - pl_depth c)) c) | _ => i end) inputs)
-        else if negb (checklength cs) then Err EValue else
-        do custom <- getfunction inputs;
-        match custom with
-        | Some out => Ok out
-        | None =>
-            if existsb is_empty_node cs then
-              apply fuel' (map (fun i => match i with MC Empty => MC (Numpy DBool [0] []) | _ => i end) inputs)
-            else if existsb is_numpy_nd cs then
-              apply fuel' (map (fun i => match i with MC c => MC (if is_numpy_nd c then np_to_regular c else c) | _ => i end) inputs)
-            else if existsb is_indexed_node cs then
-              do next <- map_c (fun c => match c with Indexed _ ix c' => ccarry c' ix | _ => Ok c end) inputs;
-              apply fuel' next
-            else if existsb is_union_node cs then Err EValue          (* named gap *)
-            else if existsb is_option_node cs then
-              do masks <- mapM bytemask_of (filter is_option_node cs);
-              match masks with
-              | [] => Err EValue
-              | m0 :: ms =>
-                  let mask := fold_left or_masks ms m0 in
-                  do next <- map_c (fun c =>
-                                      if is_option_node c then
-                                        do oi <- option_index c; ccarry (snd oi) (kept (fst oi) mask)
-                                      else ccarry c (kept (iota (zlen mask)) mask)) inputs;
-                  do out <- apply fuel' next;
-                  Ok (IndexedOption I64 (count_index 0 mask) out)
-              end
-            else if existsb is_list_node cs then
-              let lists := filter is_list_node cs in
-              if forallb is_regular_node lists then
-                let sizes := flat_map (fun c => match c with Regular _ s _ => [s] | _ => [] end) lists in
-                let maxsize := fold_right Z.max 0 sizes in
-                do next <- map_c (fun c =>
-                                    match c with
-                                    | Regular c' size _ =>
-                                        if (1 <? maxsize) && (size =? 1) then
-                                          do t <- pyslice c' (clen c * size);
-                                          ccarry t (concat (map (fun i => repeat i (Z.to_nat maxsize)) (iota (clen c))))
-                                        else if size =? maxsize then pyslice c' (clen c * size)
-                                        else Err EValue
-                                    | _ => Ok c
-                                    end) inputs;
-                let maxlen := fold_right Z.max 0 (map clen (contents_of next)) in
-                do out <- apply fuel' next;
-                Ok (Regular out maxsize maxlen)
-              else if negb (all_same_offsets cs) then
-                match filter (fun c => is_list_node c && negb (is_regular_node c)) cs with
-                | [] => Err EValue
-                | first :: _ =>
-                    do offsets <- compact_offsets first;
-                    do next <- map_c (fun c =>
-                                        if is_list_node c then bto offsets c
-                                        else bto offsets (Regular c 1 (clen c))) inputs;
-                    do out <- apply fuel' next;
-                    Ok (ListOffset I64 offsets out)
-                end
-              else
-                do next <- map_c (fun c =>
-                                    match c with
-                                    | ListOffset _ o c' => pyslice c' (last o 0)
-                                    | ListA _ s e c' =>
-                                        if (zlen s =? 0) || (zlen e =? 0) then pyslice c' 0
-                                        else pyslice c' (fold_right Z.max (hd 0 e) e)
-                                    | _ => Ok c
-                                    end) inputs;
-                do out <- apply fuel' next;
-                (* the node class of the LAST ListOffsetArray, else of the last ListArray *)
-                match rev (filter (fun c => match c with ListOffset _ _ _ => true | _ => false end) cs) with
-                | ListOffset w o _ :: _ => Ok (ListOffset w o out)
-                | _ =>
-                    match rev (filter (fun c => match c with ListA _ _ _ _ => true | _ => false end) cs) with
-                    | ListA w s e _ :: _ => Ok (ListA w s e out)
-                    | _ => Err EValue
-                    end
-                end
-            else if existsb is_record_node cs then
-              if negb m_allow_rec then Err EValue else
-              let recs := filter is_record_node cs in
-              let keysets := flat_map (fun c => match c with Record fs ks _ => [keys_of ks (length fs)] | _ => [] end) recs in
-              match keysets with
-              | [] => Err EValue
-              | keys :: others =>
-                  if negb (forallb (same_keyset keys) others) then Err EValue else
-                  if negb (all_eq (map clen recs)) then Err EValue else
-                  match keys with
-                  | [] => Err EOob            (* range(None): TypeError in the Python code *)
-                  | _ =>
-                      do outs <- mapM (fun key =>
-                                         do sub <- map_c (fun c =>
-                                                            match c with
-                                                            | Record fs ks n =>
-                                                                do i <- index_of key (keys_of ks (length fs)) 0;
-                                                                do f <- get fs i; grange f 0 n
-                                                            | _ => Ok c
-                                                            end) inputs;
-                                         apply fuel' sub) keys;
-                      Ok (Record outs
-                                 (if forallb (fun c => match c with Record _ None _ => true | _ => false end) recs
-                                  then None else Some keys)
-                                 (match recs with r :: _ => clen r | [] => 0 end))
-                  end
-              end
-            else Err EValue
-        end
+    | S fuel' => dispatch (apply fuel') inputs
     end.
 
   (* broadcast_pack / apply / broadcast_unpack *)
